@@ -144,13 +144,24 @@ class Facts:
                     node = dict(m, body=m["default"], vis="", attrs=[], docs=[], test=False, provided_by=tname)
                     self.fns.setdefault(key, Fn(key, node, path, module, it, False))
 
+    def _add_fn(self, key, fn):
+        """A `#[cfg(test)]` twin of a function never stands in for the function the library has: the item the users' build
+        compiles wins, whichever comes first in the file."""
+        old = self.fns.get(key)
+        if old is not None and not old.test and fn.test:
+            self.fns[key + "#test-twin"] = fn
+            return
+        if old is not None and old.test and not fn.test:
+            self.fns[key + "#test-twin"] = old
+        self.fns[key] = fn
+
     def _index_items(self, items, path, module, test):
         for it in items:
             k = it["k"]
             t = test or it.get("test", False)
             if k == "fn":
                 key = "::".join(module + (it["name"],))
-                self.fns[key] = Fn(key, it, path, module, None, t)
+                self._add_fn(key, Fn(key, it, path, module, None, t))
             elif k == "impl":
                 self.impls.append((path, module, it))
                 st = norm_ty(it["self_ty"])
@@ -164,7 +175,7 @@ class Facts:
                     if m["k"] != "fn":
                         continue
                     key = ("<%s as %s>::%s" % (st, tr, m["name"])) if tr else ("%s::%s" % (st, m["name"]))
-                    self.fns[key] = Fn(key, m, path, module, it, t or m.get("test", False))
+                    self._add_fn(key, Fn(key, m, path, module, it, t or m.get("test", False)))
             elif k in ("enum", "struct"):
                 it["_file"] = path
                 it["_module"] = module
